@@ -104,6 +104,7 @@ func Authenticate(inner func(http.ResponseWriter, *http.Request), client meta.Me
 				}
 			default:
 				httpd.HttpError(w, "unsupported authentication", http.StatusUnauthorized)
+				return
 			}
 
 		}
